@@ -375,6 +375,46 @@ func wrapClosure(p *Prog) (*ssa.Function, error) {
 	return lits[0], nil
 }
 
+// maskedStateRule: where the configuration lists `*` for methods (request
+// headers), the request path does not consult the discrete method set
+// (header set, pre-joined list). Config() renders only `*` in that case
+// (R6.4) and validation may or may not keep the discrete entries (R15.2), so
+// an answer that depended on them would differ after a round trip through
+// Config() and with the position of `*` in the list.
+func maskedStateRule(ctx *Ctx, r *Result, rule string) {
+	r.rule(rule, "under `*` the request path does not consult the masked discrete state (allowedMethods under allowAnyMethod; allowedReqHdrs / acah under asteriskReqHdrs)", 50)
+	rt := ctx.RequestTable()
+	if rt.Closure == nil || len(rt.Problems) > 0 {
+		r.undecided(rule, "request-closure", strings.Join(rt.Problems, "; "))
+		return
+	}
+	n := 0
+	for _, rp := range rt.Paths {
+		if !rp.Is(aAnyMethod) && !rp.Is(aAsterisk) {
+			continue
+		}
+		n++
+		bad := ""
+		if rp.Is(aAnyMethod) && rp.A[aListed] != 0 {
+			bad = "the discrete method set is consulted although `*` is listed for methods"
+		}
+		if rp.Is(aAsterisk) {
+			if rp.A[aNoHdrs] != 0 || rp.A[aCheck] != 0 || rp.A[aNoACAH] != 0 {
+				bad = "the discrete request-header set (or its pre-joined list) is consulted although `*` is listed for request headers"
+			}
+			for _, w := range rp.Writes {
+				if w.Tag == "cfg.acah" {
+					bad = "the pre-joined list of discrete request-header names is sent although `*` is listed for request headers"
+				}
+			}
+		}
+		r.check(bad == "", rule, rp.Describe(), "", bad, 1)
+	}
+	if n == 0 {
+		r.undecided(rule, "request-closure", "no request path carries a wildcard flag")
+	}
+}
+
 // wrapReturnsClosure: Wrap hands out the request closure on every path and
 // decides nothing itself — a handler wrapped while the middleware was
 // passthrough must follow later reconfigurations like any other (C06, C07,
